@@ -2,7 +2,9 @@ package c14
 
 import (
 	"bytes"
+	"context"
 	"fmt"
+	"github.com/la5nta/wl2k-go/transport"
 	"io"
 	"math/rand"
 	"net"
@@ -451,7 +453,7 @@ func runScenario(sc scenario) (out outcome) {
 	d.out.counters = map[string]int64{}
 	ev0 := evictions.Load()
 	simRnd := vrt.Rand(sc.Seed, "simseg")
-	opt := simardop.Options{Seq: &d.seq, Activity: &d.activity, MyCall: "", EchoNow: sc.EchoNow, TrailingSpace: sc.Trailing,
+	opt := simardop.Options{Seq: &d.seq, Activity: &d.activity, MyCall: "", EchoNow: sc.EchoNow, FaultSendID: sc.Poll, TrailingSpace: sc.Trailing,
 		PiecePause: time.Duration(sc.PauseUS) * time.Microsecond, ProbeAfter: 3 * time.Second}
 	if sc.Offline {
 		opt.InitialState = "OFFLINE"
@@ -533,7 +535,30 @@ func runScenario(sc scenario) (out outcome) {
 	// --- connect
 	var ln net.Listener
 	if sc.Dial {
-		done = d.goSafe(func() { d.conn, err = d.tnc.Dial(remote) })
+		done = d.goSafe(func() {
+			switch sc.DialAPI {
+			case "":
+				d.conn, err = d.tnc.Dial(remote)
+			default:
+				var u *transport.URL
+				if u, err = transport.ParseURL("ardop:///" + remote); err != nil {
+					return
+				}
+				switch sc.DialAPI {
+				case "url":
+					d.conn, err = d.tnc.DialURL(u)
+				case "urlctx":
+					ctx, cancel := context.WithCancel(context.Background())
+					d.conn, err = d.tnc.DialURLContext(ctx, u)
+					cancel() // the dial is over: ending its context must not touch the connection it returned
+				default:
+					ctx, cancel := context.WithCancel(context.Background())
+					d.conn, err = d.tnc.DialURLContext(ctx, u)
+					time.AfterFunc(150*time.Millisecond, cancel)
+				}
+				d.count("dials_through_"+sc.DialAPI, 1)
+			}
+		})
 		if !d.await(done, "dial") {
 			return
 		}
@@ -583,8 +608,15 @@ func runScenario(sc scenario) (out outcome) {
 						return
 					default:
 					}
-					d.tnc.Version()
-					d.count("version_polls_during_writes", 1)
+					if polls%3 == 2 {
+						// a command the TNC refuses in this state (FAULT): the refusal concerns this caller, not the data
+						// frame another goroutine is writing
+						d.tnc.SendID()
+						d.count("refused_commands_during_writes", 1)
+					} else {
+						d.tnc.Version()
+						d.count("version_polls_during_writes", 1)
+					}
 					if polls++; polls >= 150 {
 						return // enough interleavings; keeps the simulator's event log small
 					}
